@@ -212,28 +212,39 @@ def u5(ctx, rid):
         if f is None:
             raise core.AnchorLost(fid)
         key = 'cut-after-first-marker|%s' % fid
-        trunc = [c for c in f.calls if c.name == 'truncate' and c.path.startswith('std::vec::Vec')]
-        pos = [c for c in f.calls if c.name == 'position']
-        good = False
-        for t in trunc:
-            ogs = core.origins(f, t.args[1])
-            for o in ogs:
-                if o.kind == 'binop' and o.data['op'] in ('Add', 'AddWithOverflow'):
-                    ka, kb = op_const(o.data['a']), op_const(o.data['b'])
-                    one = (ka and ka.get('int') == 1) or (kb and kb.get('int') == 1)
-                    other = o.data['b'] if (ka and ka.get('int') == 1) else o.data['a']
-                    src = core.origins(f, other)
-                    if one and any(s.kind == 'call' and s.data.name == 'position' for s in src):
-                        good = True
-        # the predicate of position() is is_deleted
-        pred_ok = False
-        for p in pos:
-            for a in p.args:
-                l = op_local(a)
-                if l is not None and f.locals[l].get('h') == 'closure':
-                    cl = prog.fns[f.locals[l]['a'][0]]
-                    if any(x.name == 'is_deleted' for x in cl.calls):
-                        pred_ok = True
+
+        def cut_pattern(g):
+            trunc = [c for c in g.calls if c.name == 'truncate' and c.path.startswith('std::vec::Vec')]
+            pos = [c for c in g.calls if c.name == 'position']
+            good = False
+            for t in trunc:
+                ogs = core.origins(g, t.args[1])
+                for o in ogs:
+                    if o.kind == 'binop' and o.data['op'] in ('Add', 'AddWithOverflow'):
+                        ka, kb = op_const(o.data['a']), op_const(o.data['b'])
+                        one = (ka and ka.get('int') == 1) or (kb and kb.get('int') == 1)
+                        other = o.data['b'] if (ka and ka.get('int') == 1) else o.data['a']
+                        src = core.origins(g, other)
+                        if one and any(x.kind == 'call' and x.data.name == 'position' for x in src):
+                            good = True
+            # the predicate of position() is is_deleted
+            pred_ok = False
+            for p in pos:
+                for a in p.args:
+                    l = op_local(a)
+                    if l is not None and g.locals[l].get('h') == 'closure':
+                        cl = prog.fns[g.locals[l]['a'][0]]
+                        if any(x.name == 'is_deleted' for x in cl.calls):
+                            pred_ok = True
+            return good, pred_ok
+        # the cut may live in a helper of the same file the list is handed to (`cut_after_first_deletion(hs)`)
+        cands = [f] + [g for c in f.calls if c.bb in f.reachable() for t in prog.resolve(c) for g in [prog.body_of(t) if t in prog.fns else None]
+                       if g is not None and g.file == f.file and g.id != f.id]
+        good = pred_ok = False
+        for g in cands:
+            gd, pk = cut_pattern(g)
+            if gd and pk:
+                good = pred_ok = True
         n += 1
         if good and pred_ok:
             ctx.ok(rid, key, f.where(), 'truncate(position(is_deleted) + 1): the first marker is kept, everything older is cut')
@@ -472,22 +483,32 @@ def u10(ctx, rid):
     for f in prog.fns.values():
         if not (f.id.endswith('IndexTrait<K>>::push') and 'IndexStruct' in f.id):
             continue
-        ins = [c for c in f.calls if c.name == 'insert' and c.path.startswith('std::vec::Vec') and c.bb in f.reachable()]
-        exits = upper_bound_exits(prog, f)
-        # a helper of this crate that returns an upper-bound position
+        push_id = f.id
+        # the ordered insertion may live in a helper of the same file that push hands the per-key vector to
+        bodies = [f]
         for c in f.calls:
-            if c.bb in f.reachable() and c.t['t'] is not None and any(t in prog.fns and upper_bound_fn(prog, t) for t in prog.resolve(c)):
-                exits.append(c.t['t'])
-        for c in ins:
-            n += 1
-            key = 'equal-timestamps-append-behind|%s' % f.id
-            if not exits:
-                ctx.bad(rid, key, c.where(), 'no `<=`-on-timestamps skip precedes the insertion into the per-key version list')
-            elif c.bb in f.reach_from([0], avoid_enter=exits):
-                ctx.bad(rid, key, c.where(), 'the insertion position can reach Vec::insert without having been moved behind the records with an equal timestamp (no `v[pos].timestamp() <= new.timestamp()` skip on that path): a record written later with the same timestamp ranks before the earlier one',
-                        witness=['bb%d %s' % (b, f.where(b)) for b in (f.path([0], [c.bb], avoid_enter=exits) or [])][-8:])
-            else:
-                ctx.ok(rid, key, c.where(), 'every path to the insertion leaves the `<=` skip loop (or a `<=` partition_point / helper)')
+            for t in prog.resolve(c):
+                g = prog.fns.get(t)
+                if g is not None and g.file == f.file and g.id != f.id and not g.is_coroutine and g not in bodies \
+                   and any(x.name == 'insert' and x.path.startswith('std::vec::Vec') and 'Header' in x.full for x in g.calls):
+                    bodies.append(g)
+        for f in bodies:
+            ins = [c for c in f.calls if c.name == 'insert' and c.path.startswith('std::vec::Vec') and c.bb in f.reachable()]
+            exits = upper_bound_exits(prog, f)
+            # a helper of this crate that returns an upper-bound position
+            for c in f.calls:
+                if c.bb in f.reachable() and c.t['t'] is not None and any(t in prog.fns and upper_bound_fn(prog, t) for t in prog.resolve(c)):
+                    exits.append(c.t['t'])
+            for c in ins:
+                n += 1
+                key = 'equal-timestamps-append-behind|%s' % push_id
+                if not exits:
+                    ctx.bad(rid, key, c.where(), 'no `<=`-on-timestamps skip precedes the insertion into the per-key version list')
+                elif c.bb in f.reach_from([0], avoid_enter=exits):
+                    ctx.bad(rid, key, c.where(), 'the insertion position can reach Vec::insert without having been moved behind the records with an equal timestamp (no `v[pos].timestamp() <= new.timestamp()` skip on that path): a record written later with the same timestamp ranks before the earlier one',
+                            witness=['bb%d %s' % (b, f.where(b)) for b in (f.path([0], [c.bb], avoid_enter=exits) or [])][-8:])
+                else:
+                    ctx.ok(rid, key, c.where(), 'every path to the insertion leaves the `<=` skip loop (or a `<=` partition_point / helper)')
     if n < 1:
         raise core.AnchorLost('Vec::insert in IndexStruct::push: %d' % n)
 
